@@ -386,7 +386,7 @@ func (r *collection) Remove(t reflect.Type) {
 	defer r.mu.Unlock()
 
 	typeKey := TypeKey{Type: t}
-	delete(r.services, typeKey)
+	r.removeService(typeKey)
 }
 
 // RemoveKeyed removes a specific keyed service
@@ -399,7 +399,25 @@ func (r *collection) RemoveKeyed(t reflect.Type, key any) {
 	defer r.mu.Unlock()
 
 	typeKey := TypeKey{Type: t, Key: key}
+	r.removeService(typeKey)
+}
+
+// removeService deletes a registration from the services map and from
+// allDescriptors, so that a later Build no longer sees it.
+func (r *collection) removeService(typeKey TypeKey) {
+	descriptor, ok := r.services[typeKey]
+	if !ok {
+		return
+	}
+
 	delete(r.services, typeKey)
+
+	for i, d := range r.allDescriptors {
+		if d == descriptor {
+			r.allDescriptors = append(r.allDescriptors[:i:i], r.allDescriptors[i+1:]...)
+			break
+		}
+	}
 }
 
 // ToSlice returns a copy of all registered service descriptors
